@@ -9,6 +9,7 @@ import dis
 import inspect
 import itertools
 import json
+import os
 import math
 import random
 import sys
@@ -277,7 +278,63 @@ def _c12_handbuilt():
                              _additional_args=(Constant(None, 0), Name("m", 1)), _nested=True, future_annotations=True))]
 
 
+def _interpreter_state():
+    """settings shared by every later call in the process (what 'no shared mutable state' must also cover)"""
+    import decimal, gc, locale, random, warnings
+    st = {"recursionlimit": sys.getrecursionlimit(), "cwd": os.getcwd(), "environ": tuple(sorted(os.environ.items())), "path": tuple(sys.path), "warning_filters": len(warnings.filters),
+          "switchinterval": sys.getswitchinterval(), "trace": sys.gettrace(), "profile": sys.getprofile(), "gc": (gc.isenabled(), gc.get_threshold()), "locale": locale.setlocale(locale.LC_ALL),
+          "random": hash(random.getstate()), "decimal": repr(decimal.getcontext()), "dont_write_bytecode": sys.dont_write_bytecode, "displayhook": sys.displayhook, "excepthook": sys.excepthook,
+          "stdout": sys.stdout, "stderr": sys.stderr}
+    if hasattr(sys, "get_int_max_str_digits"):
+        st["int_max_str_digits"] = sys.get_int_max_str_digits()
+    return st
+
+
+def _state_diff(a, b):
+    return sorted(k for k in a if a[k] != b.get(k))
+
+
+def _outcome(fn):
+    try:
+        return ("value", fn())
+    except Exception as e:
+        return ("raised", type(e).__name__, str(e)[:80])
+
+
+def _c12_exceptional(label, make_code):
+    """inputs on which some API calls legitimately raise (a constant beyond the interpreter's int<->str digit limit): every call must have the *same* outcome
+    whenever it is repeated, whatever was called in between, and none may change interpreter-wide settings"""
+    msgs = []
+    st0 = _interpreter_state()
+    code = make_code()
+    d = CodeData.from_code(code)
+    doc = {"blocks": [[{"name": "LOAD_CONST", "arg": {"constant": {"int": "9" * 5000}}}, {"name": "RETURN_VALUE"}]], "filename": "f", "first_line_number": 1, "name": "n", "stacksize": 1}
+    calls = [("from_json_data(document with a 5000-digit int)", lambda: CodeData.from_json_data(doc)), ("to_json_data(data with a 5000-digit int)", lambda: json.dumps(d.to_json_data(), sort_keys=True)),
+             ("to_code", lambda: _code_snapshot(d.to_code())), ("normalize", lambda: d.normalize())]
+    first = {}
+    for rnd in range(3):
+        for name, fn in (calls if rnd != 1 else list(reversed(calls))):
+            o = _outcome(fn)
+            if name not in first:
+                first[name] = o
+            elif first[name] != o and not (o[0] == "value" and first[name][0] == "value" and repr(o) == repr(first[name])):
+                msgs.append("%s: outcome of call %d differs from the first call (%s, first %s)" % (name, rnd + 1, str(o)[:80], str(first[name])[:80]))
+    diff = _state_diff(st0, _interpreter_state())
+    if diff:
+        msgs.append("API calls changed interpreter-wide state: %s" % ", ".join(diff))
+    return msgs
+
+
 def _c12_one(sid, code, d1=None):
+    st0 = _interpreter_state()
+    msgs = _c12_one_(sid, code, d1)
+    diff = _state_diff(st0, _interpreter_state())
+    if diff:
+        msgs.append("API calls changed interpreter-wide state: %s" % ", ".join(diff))
+    return msgs
+
+
+def _c12_one_(sid, code, d1=None):
     msgs = []
     if d1 is None:
         snap = _code_snapshot(code)
@@ -418,6 +475,14 @@ def c12_purity(tier, seed):
             msgs = ["from_json_data on a hand-written document raised %s: %s" % (type(e).__name__, e)]
         if msgs:
             fails.append(fail("api_calls_pure", "document:%d" % k, msgs, {"document": k}))
+    for label, mk_ in C12_EXCEPTIONAL:
+        evals += 12
+        try:
+            msgs = _c12_exceptional(label, mk_)
+        except Exception as e:
+            msgs = ["history raised %s: %s" % (type(e).__name__, e)]
+        if msgs:
+            fails.append(fail("api_calls_pure", "exceptional:%s" % label, msgs, {"exceptional": label}))
     for sid, cd in _c12_handbuilt():
         evals += 12
         try:
@@ -429,8 +494,14 @@ def c12_purity(tier, seed):
     return result(evals, len(srcs) + 1, fails, samples, "%d sources x every nested code object, plus one hand-built CodeData with every private field set (argument-less instructions with line offsets), x a fixed history of 14 repeated/interleaved API calls with deep snapshots" % len(srcs))
 
 
+C12_EXCEPTIONAL = [("hex5000", lambda: compile("x = 0x" + "f" * 5000 + "\n", "<c12:huge>", "exec", dont_inherit=True)),
+                   ("shift", lambda: compile("x = 1 << 20000\ny = -(1 << 20000)\n", "<c12:shift>", "exec", dont_inherit=True))]
+
+
 @replayer("C12", "purity_histories")
 def c12_replay(rec):
+    if "exceptional" in rec["recipe"]:
+        return _c12_exceptional(rec["recipe"]["exceptional"], dict(C12_EXCEPTIONAL)[rec["recipe"]["exceptional"]])
     if "document" in rec["recipe"]:
         return _c12_document(copy.deepcopy(C12_DOCUMENTS[rec["recipe"]["document"]]))
     if "handbuilt" in rec["recipe"]:
